@@ -1,31 +1,19 @@
-//! Ad-hoc experiments (not part of any registered check).
-use memvid_core::Memvid;
+//! Ad-hoc helper (not part of any registered check): `probe <out>` writes the TOC image of a small
+//! committed memory (seed input for the c30_toc fuzz target).
+use memvid_core::{find_last_valid_footer, Memvid, PutOptions};
 fn main() {
-    let src = std::env::args().nth(1).unwrap();
-    let n: usize = std::env::args().nth(2).and_then(|s| s.parse().ok()).unwrap_or(30);
-    let threads: usize = std::env::args().nth(3).and_then(|s| s.parse().ok()).unwrap_or(1);
-    let stop = std::sync::Arc::new(std::sync::atomic::AtomicBool::new(false));
-    let st2 = stop.clone();
-    let spawner = std::thread::spawn(move || { let mut n = 0; while !st2.load(std::sync::atomic::Ordering::Relaxed) { let _ = std::process::Command::new("/bin/true").status(); n += 1; } n });
-    let mut hs = vec![];
-    for t in 0..threads {
-        let src = src.clone();
-        hs.push(std::thread::spawn(move || {
-            let dir = vh::util::Scratch::new("probe");
-            let mut fails = 0;
-            for i in 0..n {
-                let p = dir.path(&format!("m{t}-{i}.mv2"));
-                std::fs::copy(&src, &p).unwrap();
-                match Memvid::open(&p) {
-                    Ok(m) => { drop(m); }
-                    Err(e) => { fails += 1; if fails < 3 { println!("thread {t} iter {i}: {e}"); } }
-                }
-            }
-            fails
-        }));
-    }
-    let total: usize = hs.into_iter().map(|h| h.join().unwrap()).sum();
-    stop.store(true, std::sync::atomic::Ordering::Relaxed);
-    let spawned = spawner.join().unwrap();
-    println!("failures: {total} of {} (while spawning {spawned} processes)", n * threads);
+    let out = std::env::args().nth(1).expect("output path");
+    let dir = vh::util::Scratch::new("probe");
+    let p = dir.path("a.mv2");
+    let mut m = Memvid::create(&p).unwrap();
+    let mut o = PutOptions::default();
+    o.timestamp = Some(5);
+    o.tags = vec!["t".into()];
+    m.put_bytes_with_options(b"Alice works at Acme Corp since 2024-03-01.", o).unwrap();
+    m.put_with_embedding(b"second", vec![0.5, 1.0]).unwrap();
+    m.commit().unwrap();
+    drop(m);
+    let bytes = std::fs::read(&p).unwrap();
+    let fs = find_last_valid_footer(&bytes).unwrap();
+    std::fs::write(out, fs.toc_bytes).unwrap();
 }
